@@ -542,7 +542,9 @@ def spawn_layer_in_subprocess(result, script_parts, options, features,
         if options.shuffle and options.shuffle_seed is not None:
             # make the child use the seed of this process even when it was
             # not given on the command line but derived from the clock
-            args.extend(['--shuffle-seed', str(options.shuffle_seed)])
+            # (one word: a separate negative number would be taken for an
+            # option, like ``-1``)
+            args.append('--shuffle-seed=%d' % options.shuffle_seed)
 
         debugargs = args  # save them before messing up for windows
         if sys.platform.startswith('win'):
